@@ -2,33 +2,37 @@
 import json
 
 CLAIMS = {
- "C01": dict(cat="other", design="7/C01",
+ "C01": dict(cat="other", design="0.3, 0.18, 7/C01",
    text=("Deductive: every BinaryEncoder/BinaryDecoder method, the type writers incl. write_union (branch search against the "
          "statement's selection rule SEL), write_data, the readers and skips and read_data are under contract against the "
          "specification functions ENC (writer side) and BYTES/VALUE over all encoding derivations (reader side); all obligations "
          "discharged by z3 for all schemas, data and iterations; no assumed contract on repository functions remains on this path. "
+         "The public schemaless_writer / schemaless_reader are under contract too (on an already parsed schema, with the name table "
+         "the schema carries): they append exactly ENC(...) / return VALUE(w) consuming exactly BYTES(w). "
          "Not deductive: the glue ENC == BYTES(WIT) / VALUE(WIT) == NORM between the two spec views, which the bounded stand-in "
          "checks on enumerated schemas x boundary data; hence 'other', not 'proof'."),
    note=("Trusted: z3, the pyvc translator and stream model, struct/UTF-8 external contracts, float axioms, len<=2^63-1; "
          "domain: parsed schemas without logical types, no Avro keyword used as a type name (NS_CLEAN), field defaults valid as data "
          "(DEFAULTS_DATA; outside it KF12); parse_schema not involved (parsed schemas are inputs); Cython mirrors unverified."),
    technique="contract-based deductive verification (AST->VC, z3) + bounded stand-in for the spec-level round-trip glue"),
- "C02": dict(cat="other", design="7/C02",
+ "C02": dict(cat="other", design="0.3, 0.18, 7/C02",
    text=("Deductive: encoder primitives and composite writers append exactly ENC(schema, datum) -- the specification's "
          "encoding written independently from the Avro document -- for all conforming data; write_fixed raises on wrong "
          "length before writing; write_union writes the index of the branch the statement's rule selects (SEL: hinted branch, first "
          "conforming non-record branch with float deferring to a later double, else the record sharing most field names, first on ties) "
-         "followed by the value. All obligations discharged. ENC's agreement with the reader-side view (BYTES of a derivation) is "
+         "followed by the value. The public schemaless_writer (parsed schema) appends exactly ENC under the options its keywords "
+         "spell. All obligations discharged. ENC's agreement with the reader-side view (BYTES of a derivation) is "
          "only bounded, so the level is 'other'."),
    note="Trusted: as C01. One known finding (KF13) is excluded by predicate; any other violation of that obligation is still reported.",
    technique="contract-based deductive verification (AST->VC, z3); bounded differential check against the executable spec"),
- "C03": dict(cat="other", design="7/C03",
+ "C03": dict(cat="other", design="0.3, 0.15, 0.18, 7/C03",
    text=("Deductive: every decoder method and every read_*/skip_* function returns VALUE(schema, w) and consumes exactly "
          "BYTES(schema, w) for EVERY well-formed derivation w (any block partition, negative-count blocks); out-of-range "
-         "union/enum indices raise; per-function short-read obligations (a short read makes the decoder method raise). "
+         "union/enum indices raise; the public schemaless_reader (parsed schema) does the same; behaviour 'short' of the decoder "
+         "and of every reader and skip: with NO assumption about the input a call that returns has not had a read come back short. "
          "The conclusion 'every proper prefix raises' additionally rests on the paper lemma L-prefix and is exercised by "
          "the bounded stand-in (every prefix of enumerated encodings)."),
-   note="Trusted: as C01; paper lemma L-prefix (DESIGN 7/C03) is an unchecked assumption; short-read behaviours proved for BinaryDecoder methods only.",
+   note="Trusted: as C01; paper lemma L-prefix (DESIGN 7/C03) is an unchecked assumption; that a proper prefix cannot itself be a complete encoding (prefix-freeness) is not mechanised.",
    technique="contract-based deductive verification over encoding derivations (ghost witnesses, loop ghosts); bounded prefix/partition enumeration"),
  "C17": dict(cat="other", design="7/C17",
    text=("Frame obligations decided by the provenance pass for EVERY store site of every function of the pure-Python "
@@ -143,14 +147,15 @@ PENDING = ["C04", "C05", "C06", "C07", "C08", "C09", "C10", "C11", "C12", "C13",
 
 
 OVERRIDES = {
- "C04": dict(cat="other", design="0.3, 0.9, 7/C04",
+ "C04": dict(cat="other", design="0.3, 0.9, 0.18, 7/C04",
    text=("Deductive, writer side: the codec block writers (null, deflate, bzip2, xz) append exactly the block payload the layout "
          "specification prescribes; Writer.dump / write / flush are specified by what they append to the user's stream and what they "
          "leave in the pending buffer. Deductive, reader side: skip_sync, the four codec block readers (inverse of the writers' payload, "
          "codecs as assumed externals with pair axioms) and the record iterator _iter_avro_records: for EVERY layout-valid sequence of "
          "data blocks FILE_BLOCKS(codec, schema, blocks, sync) -- any number of blocks, any counts incl. 0, any partition inside the "
-         "records -- it yields exactly the records the blocks denote, in order, and stops at end of file. Not deductive: header "
-         "(write_header / _read_header with json + parse_schema), Writer.__init__, the composition 'what the Writer emitted is such a "
+         "records -- it yields exactly the records the blocks denote, in order, and stops at end of file. write_header appends exactly "
+         "the specification's header (magic, metadata map with UTF-8 values, sync marker, as the binary encoding of the header record). "
+         "Not deductive: reading the header (json + parse_schema), Writer.__init__, the composition 'what the Writer emitted is such a "
          "block sequence' and schema self-description -- bounded stand-in; hence 'other'."),
    note=("Trusted: zlib/bz2/lzma contracts and pair axioms, stream model, read_data / write_data contracts (verified under C01-C03); "
          "snappy/zstandard/lz4 not importable here and not considered; reader_schema None, no logical types."),
@@ -199,13 +204,15 @@ OVERRIDES = {
    note=("Trusted: provenance rules and declarations (contracts/_frames.py); z3; domain as C01 (no logical types, DEFAULTS_DATA, NS_CLEAN); "
          "'record branch' means type \"record\" (an \"error\" branch is treated by the writer like a non-record branch)."),
    technique="contract-based deductive verification of the branch search (answer-preserving loop invariants) + frame obligations; bounded differential check against an independent selection oracle"),
- "C10": dict(cat="other", design="0.3, 7/C10",
+ "C10": dict(cat="other", design="0.3, 0.18, 7/C10",
    text=("Deductive: every validator of fastavro/_validation_py.py (_validate_null ... _validate_union and the dispatcher _validate) "
          "is under contract against VALID, the statement's predicate written clause by clause (strict mode, '-type' and (name, value) "
          "hints included): in the non-raising mode the result IS VALID(datum, schema); in the raising mode (behaviour 'raising') "
          "ValidationError is raised exactly when VALID is false. Writer.write with validation enabled (behaviour 'validating') raises "
          "ValidationError exactly for data that is not VALID, with buffer, count and file unchanged. All obligations discharged by z3 "
-         "for all schemas/data/iterations. Not deductive: validate()/validate_many() themselves (they call parse_schema first), "
+         "for all schemas/data/iterations. The public validate() (both modes) and validate_many() (non-raising mode) are under "
+         "contract on an already parsed schema: exactly VALID under the name table the schema carries and the options the keywords "
+         "spell / the conjunction over the records. Not deductive: raw schemas (parse_schema first), validate_many's raising mode, "
          "'accepted => the writer encodes and round-trips' and logical-type values -- bounded stand-in; hence 'other'."),
    note=("Domain of the contracts: parsed schemas without logical types whose field defaults are valid Python data (DEFAULTS_DATA); "
          "outside it validate deviates from the statement -- known finding KF12, reported by the bounded part. Trusted: z3, the pyvc "
@@ -263,23 +270,25 @@ OVERRIDES = {
          "Level therefore exploration."),
    note="Known finding KF05 (piecewise-parsed schemas keep bare references) is excluded by predicate. Data values have no object identity in the logic.",
    technique="bounded differential checking of the three schema forms; contract-based deductive verification of the already-parsed path"),
- "C20": dict(cat="other", design="0.3, 0.12, 7/C20",
+ "C20": dict(cat="other", design="0.3, 0.12, 0.18, 7/C20",
    text=("Deductive: for every parsed schema without logical types (unions non-empty, field names of a record pairwise distinct) "
          "gen_data returns a value that validates against the schema (VALID, the predicate the validators are verified against), "
          "whatever the random source returns within its documented ranges: primitives, fixed (exact size), enum (a declared symbol), "
          "unions (any branch), references, arrays and maps of ten generated items / entries (random keys may repeat and overwrite), "
          "records with every field generated. All obligations discharged, including 16 small inductive lemmas about list and "
-         "dictionary building. Not deductive: logical types, the counts of generate_one / generate_many (parse_schema first), "
+         "dictionary building. generate_many (parsed schema) yields exactly `count` values, each of them VALID. "
+         "Not deductive: logical types, generate_one, raw schemas (parse_schema first), "
          "acceptance by the writers and the read-back, recursive types -- bounded stand-in; hence 'other'."),
    note=("Trusted: random.randint / random / getrandbits / choices as assumed externals (ranges and kinds only), int.to_bytes length axiom "
          "(cross-checked by ./vcheck axioms), z3, pyvc translator. Known finding KF20 (no termination for a type that contains itself "
          "through an array or map; the contract is partial correctness) is excluded by predicate in the bounded part."),
    technique="contract-based deductive verification (right-unfolded invariants for list / dictionary comprehensions, inductive lemmas instantiated at loop, call and return points); bounded run-time checking of generated values"),
- "C13": dict(cat="other", design="0.3, 0.10, 7/C13",
+ "C13": dict(cat="other", design="0.3, 0.10, 0.18, 7/C13",
    text=("Deductive: _to_parsing_canonical_form (the recursive writer behind to_parsing_canonical_form) appends exactly PCF(schema) "
          "for every parsed schema -- PCF being the Avro specification's transformation written as specification functions "
          "(primitives in simple form, name/type/fields/symbols/items/values/size only and in that order, no whitespace, plain "
-         "decimal integers, commas between list elements); all obligations discharged (three loops, recursion by contract). "
+         "decimal integers, commas between list elements); all obligations discharged (three loops, recursion by contract); the "
+         "public to_parsing_canonical_form returns PCF(schema) for an already parsed schema. "
          "Not deductive: the parse_schema step that substitutes full names and drops namespaces, the fixed-point and same-encoding "
          "consequences and the invariance under cosmetic edits -- bounded stand-in against an independent implementation of the rules."),
    note=("Trusted: z3, pyvc translator, io.StringIO model, str() of str / int values (str_of_int external). Domain: schemas of the shape "
